@@ -27,16 +27,25 @@ CHECK = {
            'String\'s literal / a stack Tuple\'s item array), exception in {ResourceError, ValueError} or no-op with value, header and containing '
            'container unchanged, heap objects reach free exactly once (block and owned buffer), successful in-place operations compared with a '
            'hard-coded value model. evaluations = cases judged; distinct_nontrivial = distinct (way, type, operation) triples in which the operation '
-           'was refused with an exception or a tracked block/buffer of the subject reached free/realloc (i.e. not a pure no-op)'),
+           'was refused with an exception or a tracked block/buffer of the subject reached free/realloc (i.e. not a pure no-op). '
+           'part=stackops: stack Tuples of 0..3 items x {assign, concat} from {stack tuple, heap Tuple, Array, List, Range, Slice, Filter, empty Filter, '
+           'Filter of a Slice, Map, Zip, Table, Tree, String, Int} of length 0..3, push, append, push_at at every index and one beyond, pop, pop_at at every '
+           'index, -1 and one beyond, rem of every item and of an absent one, resize 0..4, sort; stack Strings ("" and "abc" in a writable stack buffer) x '
+           'assign/concat/append/rem from 8 sources, resize 0..6, print_to: no free/realloc may see the object or its item array / buffer; after an '
+           'exception the receiver is slot for slot (byte for byte) what it was, after a normal return it is untouched or holds exactly the result '
+           'computed from the source\'s own iteration, reached in place (nontrivial there = distinct cases that were refused or done in place). '
+           'Collector-managed heap objects additionally: del / del_root between stop(gc) and start(gc) in a forked child - a freed block must not '
+           'stay registered, a registered block must not have been freed'),
   'bounds': {
-    'quick': 'containers of length 1 and 3 (first/last position), views over Array and List of length 1 and 3, 30 static objects, 21 types, 20 operations; gcc and clang ASan+UBSan builds of the whole grid',
-    'thorough': 'containers of length 1..6 at every position, Int and String companion key/value types, views over Array and List of length 1,3,5 at every position; gcc and ASan+UBSan builds of the whole grid',
+    'quick': 'containers of length 1 and 3 (first/last position), views over Array and List of length 1 and 3, 30 static objects, 21 types, 22 operations; stack-tuple grid with source lengths 0,1,3; gcc and clang ASan+UBSan builds of the whole grid',
+    'thorough': 'containers of length 1..8 at every position, five ways of building the container, views over Array and List of length 1..6 at every position; stack-tuple grid with source lengths 0..3; gcc and ASan+UBSan builds of the whole grid',
   },
   'assumptions': [
     'default build (CELLO_ALLOC_CHECK and CELLO_MAGIC_CHECK on); the allocation class is read from the public struct Header',
     'mismatched deletion families are out of contract per the documentation (del_raw / dealloc_raw / destruct of a collector-managed object) and are not executed; del / del_root of a raw object is accepted as an ignored no-op',
     'free/realloc calls made inside libc (stdio) are not intercepted; only calls from the library and the harness are',
     'stack Array/List/Table/Tree/Mutex do not exist (their structs are private), so the $ column omits them',
+    'assign(tuple, x) with x a String or an Int is not executed: the library runs foreach on an object without Iter and dereferences NULL (heap tuples too; reported as a C12 candidate); rem on a stack String is run on a writable buffer only (on a string literal it writes into read-only memory; reported as a candidate)',
     'gcc/clang, glibc, the linker --wrap feature and the sanitizer run-times are trusted',
   ],
   'instances': {
